@@ -159,8 +159,11 @@ class QsRun:
             ok = True
         elif op == "restart":
             self._quiesce()
-            live = sim.restart()
+            downtime = st[1] if len(st) > 1 else 0.0
+            live = sim.restart(downtime)
             self.fault("restart")
+            if downtime:
+                self.fault("restart-with-downtime")
             for name in live:  # a restarted server's clients reconnect
                 sim.connect(name)
             self._quiesce()
